@@ -466,9 +466,16 @@ class Expr(Node):
         if self.is_const:
             try:
                 value = self.eval()
-            except (OverflowError, ZeroDivisionError):
+            except Exception:
+                # whatever cannot be evaluated now (overflow, division
+                # by zero, a domain error, operands the evaluator does
+                # not handle) is left to fail, or not, at run time
                 return self
             if self.type.is_numeric:
+                if isinstance(value, complex) or \
+                   not self.type.can_hold(value):
+                    return self
+                value = self.type.coerce(value)
                 literal = NumericLiteral(value, self.type)
             else:
                 literal = StringLiteral(value)
